@@ -90,25 +90,24 @@ theorem C02_missing_recording (ao : AliasOracle) (cfg : OpCfg) (s : St) (id : Na
   unfold runPlay; simp [h, addLog]
 
 /-- Any number of replays of the same recording give the same answer: a replay leaves everything the interpreter can
-depend on as it found it, so replaying again (with the same program) yields the same `Playback` / error.  (Stated for
-replayed code that does not itself flip the recorder's enable switch - `Prog.NoSwitch`; with flips the second replay starts
-with another switch position, which a replay never reads, but the proof goes through equality of the whole core.) -/
-theorem C02_replay_idempotent (ao : AliasOracle) (cfg : OpCfg) (s : St) (id : Nat) (p : Prog) (h : s.Idle)
-    (hns : p.NoSwitch) :
+depend on as it found it, so replaying again (with the same program) yields the same `Playback` / error - also when the
+replayed code flips the recorder's enable switch (a replay never reads the switch: the core carries "recording mode", the
+switch AND a recording in flight, not the raw switch). -/
+theorem C02_replay_idempotent (ao : AliasOracle) (cfg : OpCfg) (s : St) (id : Nat) (p : Prog) (h : s.Idle) :
     (runPlay ao cfg (runPlay ao cfg s id p).1 id p).2 = (runPlay ao cfg s id p).2 :=
-  (runPlay_core ao cfg id p _ _ (runPlay_restores_core ao cfg s id p h hns)).1
+  (runPlay_core ao cfg id p _ _ (runPlay_restores_core ao cfg s id p h)).1
 
 /-- … for any number of earlier replays (of any recordings, with any programs) in between. -/
 theorem C02_replay_after_replays (ao : AliasOracle) (cfg : OpCfg) (id : Nat) (p : Prog)
-    (others : List (OpCfg × Nat × Prog)) (hns : ∀ o ∈ others, o.2.2.NoSwitch) : ∀ s : St, s.Idle →
+    (others : List (OpCfg × Nat × Prog)) : ∀ s : St, s.Idle →
     (runPlay ao cfg (others.foldl (fun t o => (runPlay ao o.1 t o.2.1 o.2.2).1) s) id p).2 = (runPlay ao cfg s id p).2 := by
   induction others with
   | nil => intro s _; rfl
   | cons o rest ih =>
     intro s h
     simp only [List.foldl_cons]
-    rw [ih (fun q hq => hns q (List.mem_cons_of_mem _ hq)) _ (runPlay_spec ao o.1 s o.2.1 o.2.2 h).1]
-    exact (runPlay_core ao cfg id p _ _ (runPlay_restores_core ao o.1 s o.2.1 o.2.2 h (hns o List.mem_cons_self))).1
+    rw [ih _ (runPlay_spec ao o.1 s o.2.1 o.2.2 h).1]
+    exact (runPlay_core ao cfg id p _ _ (runPlay_restores_core ao o.1 s o.2.1 o.2.2 h)).1
 
 /-! Non-vacuity -/
 example : Replaying ⟨0, [], default⟩ { playback := some ⟨0, [], default⟩ } := ⟨rfl, rfl, rfl⟩
